@@ -44,10 +44,45 @@ func (s *sess) check(k int, h []rng, offers []offer, present bool, countNT bool)
 			ntSeen.Add(1)
 		}
 	}
+	if k == kLanguage && present {
+		s.languagePrefixes(h)
+	}
 	if v == nil {
 		return
 	}
 	s.report(k, h, offers, present, v)
+}
+
+// languagePrefixes: what a language range accepts among the shorter tags its own subtags begin
+// with (zh-Hant-TW: zh-Hant, zh) is read in two ways — none of them (RFC 4647 basic filtering) or
+// all of them (lookup, which truncates subtag by subtag; the reading fiber documents). Both give
+// the same answer for every such tag of one range, so the observed solo acceptability must be
+// the same for all of them: accepting "zh" but not "zh-Hant" fits neither reading.
+func (s *sess) languagePrefixes(h []rng) {
+	for i := range h {
+		r := &h[i]
+		if r.empty || r.typ == "*" || qval(r.q) == 0 {
+			continue
+		}
+		cuts := subtagCuts(r.typ)
+		if len(cuts) < 2 {
+			continue
+		}
+		var yes, no []string
+		for _, c := range cuts {
+			if s.solo(kLanguage, r, r.typ[:c]) {
+				yes = append(yes, r.typ[:c])
+			} else {
+				no = append(no, r.typ[:c])
+			}
+		}
+		s.e.Stat("language_ranges_with_3_or_more_subtags", 1)
+		if len(yes) > 0 && len(no) > 0 {
+			s.e.Violation(s.c, "C09|language-range-accepts-some-of-its-own-prefixes|AcceptsLanguages|shorter-prefix-accepted-longer-rejected",
+				"AcceptsLanguages with Accept-Language: "+strconv.Quote(r.typ)+" accepts "+strings.Join(yes, ",")+" but not "+strings.Join(no, ","),
+				map[string]any{"range": r.typ, "accepted": yes, "rejected": no})
+		}
+	}
 }
 
 func (s *sess) report(k int, h []rng, offers []offer, present bool, v *verdict) {
@@ -179,6 +214,8 @@ func run(e *ev.Env) {
 	corpus("subtype-prefix", kMedia, mo("text/htmlx", "text/htm", "image/png"), true, mr("text/html", ""), mr("image/png", "0.1"))
 	corpus("token-prefix-encoding", kEncoding, mo("gzip", "br"), true, mr("gzipx", ""), mr("br", "0.1"))
 	corpus("token-prefix-charset", kCharset, mo("ut", "iso-8859-1"), true, mr("utf-8", ""), mr("iso-8859-1", "0.1"))
+	corpus("language-three-subtags", kLanguage, mo("en", "zh-Hant"), true, mr("zh-Hant-TW", ""), mr("en", "0.5"))
+	corpus("language-three-subtags-primary", kLanguage, mo("fr", "sr", "sr-Latn"), true, mr("sr-Latn-RS", "0.9"), mr("fr", "0.5"))
 	corpus("token-prefix-language", kLanguage, mo("en", "fr"), true, mr("eng", ""), mr("fr", "0.1"))
 	corpus("absent-header", kMedia, mo("application/json", "text/html"), false, mr("text/html", ""))
 	// equal quality, specificity and parameter count: position decides; three-way for the sort
